@@ -5,62 +5,46 @@
    Oracles and their contracts (hypotheses, never axioms):
      pinv_ok m pinv       torch.linalg.pinv is the inverse on symmetric positive definite m x m input
      cholesky_ok n msqrt  UKF.msqrt (default torch.linalg.cholesky): lower triangular, positive
-                          diagonal, L L^T = M on SPD input       (refutations only)
-     msqrt_shape n msqrt  msqrt returns an n x n matrix          (covariance theorems)
+                          diagonal, L L^T = M on SPD input
+     factor_ok n msqrt    only L L^T = M  (implied by cholesky_ok; what the positive UKF theorems need)
    The user's system is an arbitrary record (f, h, Jacobians A, C at the reference point).
 
-   Outcome on the faithful model:
-     REFUTED  EKF = KF on linear systems            (innovation taken at the pre-transition state)
-     REFUTED  EKF = its documented recursion        (same defect; covariance part does hold)
-     REFUTED  UKF = KF on linear systems            (1-dimensional witness: Pxy pairs deviations of
-                                                     two different sigma sets)
-     REFUTED  UKF predicted covariance = A P A^T + Q (2-dimensional non-diagonal witness: rows instead
-                                                     of columns of the lower Cholesky factor)
-     PROVED   the documented EKF recursion is the Kalman filter on every linear system
-     PROVED   EKF / UKF (non-negative centre weight) / PF covariances are symmetric PSD, every
-              dimension, every (nonlinear) system, every run length
+   The model is the code after the repairs 8375f2f (EKF), 7981b02 (UKF), b057b94 (PF):
+     PROVED   EKF = Kalman filter on every linear system, every dimension
+     PROVED   EKF = the five documented equations on every (nonlinear) system
+     PROVED   UKF = Kalman filter on every linear system, every dimension, every k > -n
+              (also: predicted mean / covariance = Kalman prediction)
+     PROVED   EKF covariance symmetric PSD; UKF covariance symmetric positive definite whenever the
+              centre weight is non-negative (and the call returns); PF covariance symmetric PSD --
+              every dimension, every nonlinear system, every run length
      PROVED   a run is the fold of the one-step map
-     PROVED   the UKF with both repairs (columns of the factor; Pxy from the second sigma set:
-              ukf_forward_gen true true) IS the Kalman filter on every linear system, every
-              dimension, every k > -n, any factor L L^T = M *)
+   History (the [_old] definitions = the code before the repairs), kept as regression documentation:
+     REFUTED  old EKF = KF / = documented recursion (innovation at the pre-transition state)
+     REFUTED  old UKF = KF (1-d witness: Pxy paired two different sigma sets; 2-d witness: rows of
+              the lower Cholesky factor) *)
 From Coq Require Import Reals List ZArith.
 From PV Require Import Base.Num Base.Mat Model.Filter Proofs.Filter.
 Import ListNotations.
 Local Open Scope R_scope.
 #[local] Remove Hints NumQ NumZ : typeclass_instances.
 
-(* ------------------------------------------------------------------ EKF vs Kalman filter *)
-(* the clause, at full strength (Definition ekf_linear_is_kf in Proofs/Filter.v):
-   forall n m p pinv A B C D c1 c2 Q R x y u P, contracts and shapes, SPD Q R P ->
+(* ------------------------------------------------------------------ EKF *)
+(* forall n m p pinv A B C D c1 c2 Q R x y u P, contracts, shapes, SPD Q R P ->
      ekf_forward pinv (lin_system A B C D c1 c2) Q R x y u P = kf_step pinv A B C D c1 c2 Q R x y u P *)
-Theorem C13_ekf_linear_is_kf_refuted : ~ ekf_linear_is_kf.
-Proof. exact ekf_linear_is_kf_refuted. Qed.
+Theorem C13_ekf_linear_is_kf :
+  forall (n m p : nat) (pinv : matR -> matR) (A B C D : matR) (c1 c2 : list R) (Q Rm : matR)
+         (x y u : list R) (P : matR),
+    pinv_ok m pinv -> wf n n A -> wf n p B -> wf m n C -> wf m p D -> length c1 = n -> length c2 = m ->
+    SPD n Q -> SPD m Rm -> SPD n P -> length x = n -> length y = m -> length u = p ->
+    ekf_forward pinv (lin_system A B C D c1 c2) Q Rm x y u P = kf_step pinv A B C D c1 c2 Q Rm x y u P.
+Proof. exact ekf_linear_is_kf_holds. Qed.
 
-(* the witness, for EVERY pinv satisfying the contract: n = 2, m = 1,
-   A = [[1,1],[0,1]], B = [[0],[1]], C = [[1,0]], D = [[0]], c = 0, Q = [[1,1/2],[1/2,1]], R = [[1]],
-   P = [[2,1],[1,2]], x = (1,1), u = (0), y = (0):  code (9/8, 9/16), Kalman filter (1/4, 1/8) *)
-Theorem C13_ekf_linear_witness :
-  wf 2 2 AW /\ wf 2 1 BW /\ wf 1 2 CW /\ wf 1 1 DW /\ SPD 2 QW /\ SPD 1 RW /\ SPD 2 PW /\
-  forall pinv, pinv_ok 1 pinv ->
-    fst (ekf_forward pinv (lin_system AW BW CW DW c1W c2W) QW RW xW yW uW PW) = [9/8; 9/16] /\
-    fst (kf_step pinv AW BW CW DW c1W c2W QW RW xW yW uW PW) = [1/4; 1/8].
-Proof. exact ekf_linear_witness. Qed.
-
-(* the recursion the documentation states (innovation at the predicted state) IS the Kalman filter *)
-Theorem C13_ekf_documented_recursion_linear_is_kf :
-  forall (pinv : matR -> matR) A B C D c1 c2 Q Rm x y u (P : matR) n,
-  wf n n A -> wf n n P ->
-  ekf_forward_gen pinv true (lin_system A B C D c1 c2) Q Rm x y u P = kf_step pinv A B C D c1 c2 Q Rm x y u P.
-Proof. exact ekf_documented_linear_is_kf. Qed.
-
-(* nonlinear systems: the code is NOT its documented recursion ... *)
-Theorem C13_ekf_nonlinear_is_documented_recursion_refuted : ~ ekf_is_documented_recursion.
-Proof. exact ekf_is_documented_recursion_refuted. Qed.
-(* ... but its covariance is *)
-Theorem C13_ekf_covariance_is_documented_recursion :
+(* nonlinear systems: the code is the documented recursion (linearisation at the prior mean, innovation
+   at the predicted state), [ekf_documented] = the five equations of the docstring *)
+Theorem C13_ekf_nonlinear_is_documented_recursion :
   forall (pinv : matR -> matR) (s : @system R) Q Rm x y u P,
-  snd (ekf_forward pinv s Q Rm x y u P) = snd (ekf_forward_gen pinv true s Q Rm x y u P).
-Proof. exact ekf_covariance_is_documented. Qed.
+  ekf_forward pinv s Q Rm x y u P = ekf_documented pinv s Q Rm x y u P.
+Proof. exact ekf_nonlinear_is_documented_recursion. Qed.
 
 (* covariance validity: every dimension, every system (A, C arbitrary well-formed matrices) *)
 Theorem C13_ekf_cov_symmetric_psd :
@@ -72,34 +56,20 @@ Theorem C13_ekf_cov_symmetric_psd :
   wf n n P' /\ msym P' /\ PSD n P'.
 Proof. exact ekf_cov_symmetric_psd. Qed.
 
-(* ------------------------------------------------------------------ UKF vs Kalman filter *)
-Theorem C13_ukf_linear_is_kf_refuted : ~ ukf_linear_is_kf.
-Proof. exact ukf_linear_is_kf_refuted. Qed.
+(* ------------------------------------------------------------------ UKF *)
+Theorem C13_ukf_linear_is_kf :
+  forall (n m p : nat) (pinv msqrt : matR -> matR) (A B C D : matR) (c1 c2 : list R) (Q Rm : matR)
+         (x y u : list R) (P : matR) (k : R),
+    pinv_ok m pinv -> cholesky_ok n msqrt ->
+    wf n n A -> wf n p B -> wf m n C -> wf m p D -> length c1 = n -> length c2 = m ->
+    SPD n Q -> SPD m Rm -> SPD n P -> length x = n -> length y = m -> length u = p ->
+    - IZR (Z.of_nat n) < k ->
+    ukf_forward pinv msqrt (lin_system A B C D c1 c2) Q Rm x y u P k =
+    Some (kf_step pinv A B C D c1 c2 Q Rm x y u P).
+Proof. exact ukf_linear_is_kf_holds. Qed.
 
-(* witness 1 (n = m = 1, so rows = columns: isolates the mixed sigma sets), for EVERY pinv / Cholesky
-   oracle: A = C = 1, B = D = 0, Q = 3, R = 1, P = 1, x = 0, u = 0, y = 1, k = 3:
-   code (2/5, 16/5), Kalman filter (4/5, 4/5) *)
-Theorem C13_ukf_linear_witness :
-  forall pinv msqrt, pinv_ok 1 pinv -> cholesky_ok 1 msqrt ->
-  ukf_forward pinv msqrt (lin_system A1 B1 A1 B1 z1 z1) Q1 R1 z1 y1 z1 P1 3 = Some ([2/5], [[16/5]]) /\
-  kf_step pinv A1 B1 A1 B1 z1 z1 Q1 R1 z1 y1 z1 P1 = ([4/5], [[4/5]]).
-Proof. exact ukf_witness1_values. Qed.
-
-(* witness 2 (n = 2, non-diagonal P: rows of the lower Cholesky factor), for EVERY Cholesky oracle:
-   A = I, B = 0, Q = [[1,1/2],[1/2,1]], P = [[1,1/2],[1/2,1/2]], k = 2:
-   predicted covariance of the code [[9/4,3/4],[3/4,5/4]], Kalman filter P + Q = [[2,1],[1,3/2]] *)
-Theorem C13_ukf_sigma_points_witness :
-  forall msqrt, cholesky_ok 2 msqrt ->
-  ukf_predict msqrt (lin_system I2 B2 I2 B2 z2 z2) Q2 z2 [0] P2 2 = Some ([0; 0], [[9/4; 3/4]; [3/4; 5/4]]) /\
-  kf_predict I2 B2 z2 Q2 z2 [0] P2 = ([0; 0], [[2; 1]; [1; 3/2]]).
-Proof. exact ukf_witness2_values. Qed.
-Theorem C13_ukf_predict_linear_is_kf_predict_refuted : ~ ukf_predict_linear_is_kf_predict.
-Proof. exact ukf_predict_linear_is_kf_predict_refuted. Qed.
-
-(* with both repairs -- sigma points = mean +- COLUMNS of the factor, Pxy built from the deviations of
-   the second sigma set -- the UKF step is the Kalman step: every dimension, every k > -n, every
-   factor oracle with L L^T = M (lower Cholesky included: cholesky_ok_factor_ok) *)
-Theorem C13_ukf_repaired_linear_is_kf :
+(* the same for ANY factor oracle with L L^T = M (user-supplied msqrt) *)
+Theorem C13_ukf_linear_is_kf_any_factor :
   forall (n m p : nat) (pinv msqrt : matR -> matR) (A B C D : matR) (c1 c2 : list R)
          (Q Rm : matR) (x y u : list R) (P : matR) (k : R),
   pinv_ok m pinv -> factor_ok n msqrt ->
@@ -110,19 +80,27 @@ Theorem C13_ukf_repaired_linear_is_kf :
   Some (kf_step pinv A B C D c1 c2 Q Rm x y u P).
 Proof. exact ukf_repaired_linear_is_kf. Qed.
 
+(* predicted mean and covariance (first half of forward) = Kalman prediction *)
+Theorem C13_ukf_predict_linear_is_kf_predict :
+  forall (n m p : nat) (msqrt : matR -> matR) (A B C D : matR) (c1 c2 : list R) (Q : matR)
+         (x u : list R) (P : matR) (k : R),
+    cholesky_ok n msqrt -> wf n n A -> wf n p B -> wf m n C -> wf m p D -> length c1 = n -> length c2 = m ->
+    SPD n Q -> SPD n P -> length x = n -> length u = p -> - IZR (Z.of_nat n) < k ->
+    ukf_predict msqrt (lin_system A B C D c1 c2) Q x u P k = Some (kf_predict A B c1 Q x u P).
+Proof. exact ukf_predict_linear_is_kf_predict_holds. Qed.
+
 (* covariance validity whenever the centre weight k/(n+k) is non-negative: every dimension, every
-   system, rows or columns; the call returns (no assert fails) *)
-Theorem C13_ukf_cov_symmetric_psd :
+   (nonlinear) system; the call returns (no assert fails) and the result is symmetric positive definite *)
+Theorem C13_ukf_cov_symmetric_pd :
   forall (pinv msqrt : matR -> matR) (n m : nat),
-  pinv_ok m pinv -> msqrt_shape n msqrt -> (0 < n)%nat -> (0 < m)%nat ->
+  pinv_ok m pinv -> factor_ok n msqrt -> (0 < n)%nat -> (0 < m)%nat ->
   forall (s : @system R) (u : list R),
   (forall p, length p = n -> length (sf s p u) = n) -> (forall p, length p = n -> length (sh s p u) = m) ->
-  forall Q Rm : matR, wf n n Q -> wf m m Rm -> msym Q -> msym Rm -> PSD n Q -> PD m Rm ->
-  forall (by_cols : bool) (x y : list R) (P : matR) (k : R),
-  wf n n P -> length x = n -> 0 <= k -> 0 < IZR (Z.of_nat n) + k ->
-  exists x' P', ukf_forward_gen pinv msqrt by_cols false s Q Rm x y u P k = Some (x', P') /\
-                length x' = n /\ wf n n P' /\ msym P' /\ PSD n P'.
-Proof. exact ukf_cov_symmetric_psd. Qed.
+  forall Q Rm : matR, SPD n Q -> SPD m Rm ->
+  forall (x y : list R) (P : matR) (k : R),
+  SPD n P -> length x = n -> 0 <= k -> 0 < IZR (Z.of_nat n) + k ->
+  exists x' P', ukf_forward pinv msqrt s Q Rm x y u P k = Some (x', P') /\ length x' = n /\ SPD n P'.
+Proof. exact ukf_cov_spd. Qed.
 
 (* ------------------------------------------------------------------ PF *)
 Theorem C13_pf_cov_symmetric_psd :
@@ -140,7 +118,7 @@ Proof. exact softmax_positive_sums_to_one. Qed.
 Theorem C13_pf_lognorm_irrelevant :
   forall (pinv msqrt : matR -> matR) (ln1 ln2 : matR -> R) (s : @system R) Q Rm x y u P eps r,
   pf_forward pinv msqrt ln1 s Q Rm x y u P eps r = pf_forward pinv msqrt ln2 s Q Rm x y u P eps r.
-Proof. exact pf_forward_lognorm_irrelevant. Qed.
+Proof. intros. exact (pf_forward_lognorm_irrelevant pinv msqrt ln1 ln2 true s Q Rm x y u P eps r). Qed.
 
 (* ------------------------------------------------------------------ runs *)
 Theorem C13_run_is_fold :
@@ -164,14 +142,47 @@ Proof. exact ekf_run_cov_valid. Qed.
 
 Theorem C13_ukf_run_cov_valid :
   forall (pinv msqrt : matR -> matR) n m (s : @system R) Q Rm k,
-  pinv_ok m pinv -> msqrt_shape n msqrt -> (0 < n)%nat -> (0 < m)%nat ->
+  pinv_ok m pinv -> factor_ok n msqrt -> (0 < n)%nat -> (0 < m)%nat ->
   (forall p u, length p = n -> length (sf s p u) = n) -> (forall p u, length p = n -> length (sh s p u) = m) ->
-  wf n n Q -> wf m m Rm -> msym Q -> msym Rm -> PSD n Q -> PD m Rm ->
-  0 <= k -> 0 < IZR (Z.of_nat n) + k ->
-  forall steps x P, wf n n P -> length x = n ->
-  exists x' P', ukf_run pinv msqrt s Q Rm k (Some (x, P)) steps = Some (x', P') /\
-                length x' = n /\ wf n n P' /\ (steps <> [] -> msym P' /\ PSD n P').
+  SPD n Q -> SPD m Rm -> 0 <= k -> 0 < IZR (Z.of_nat n) + k ->
+  forall steps x P, SPD n P -> length x = n ->
+  exists x' P', ukf_run pinv msqrt s Q Rm k (Some (x, P)) steps = Some (x', P') /\ length x' = n /\ SPD n P'.
 Proof. exact ukf_run_cov_valid. Qed.
+
+(* ------------------------------------------------------------------ history: the code before the repairs *)
+(* old EKF (innovation at the pre-transition state): n = 2, m = 1, A = [[1,1],[0,1]], B = [[0],[1]],
+   C = [[1,0]], D = 0, Q = [[1,1/2],[1/2,1]], R = [[1]], P = [[2,1],[1,2]], x = (1,1), u = 0, y = 0:
+   old code (9/8, 9/16), Kalman filter (1/4, 1/8), for EVERY pinv satisfying the contract *)
+Theorem C13_ekf_old_linear_is_kf_refuted : ~ ekf_old_linear_is_kf.
+Proof. exact ekf_old_linear_is_kf_refuted. Qed.
+Theorem C13_ekf_old_linear_witness :
+  wf 2 2 AW /\ wf 2 1 BW /\ wf 1 2 CW /\ wf 1 1 DW /\ SPD 2 QW /\ SPD 1 RW /\ SPD 2 PW /\
+  forall pinv, pinv_ok 1 pinv ->
+    fst (ekf_forward_old pinv (lin_system AW BW CW DW c1W c2W) QW RW xW yW uW PW) = [9/8; 9/16] /\
+    fst (kf_step pinv AW BW CW DW c1W c2W QW RW xW yW uW PW) = [1/4; 1/8].
+Proof. exact ekf_old_linear_witness. Qed.
+Theorem C13_ekf_old_is_documented_recursion_refuted : ~ ekf_old_is_documented_recursion.
+Proof. exact ekf_old_is_documented_recursion_refuted. Qed.
+
+(* old UKF, witness 1 (n = m = 1: isolates the mixed sigma sets): A = C = 1, B = D = 0, Q = 3, R = 1,
+   P = 1, x = 0, u = 0, y = 1, k = 3: old code (2/5, 16/5), Kalman filter (4/5, 4/5) *)
+Theorem C13_ukf_old_linear_is_kf_refuted : ~ ukf_old_linear_is_kf.
+Proof. exact ukf_old_linear_is_kf_refuted. Qed.
+Theorem C13_ukf_old_linear_witness :
+  forall pinv msqrt, pinv_ok 1 pinv -> cholesky_ok 1 msqrt ->
+  ukf_forward_old pinv msqrt (lin_system A1 B1 A1 B1 z1 z1) Q1 R1 z1 y1 z1 P1 3 = Some ([2/5], [[16/5]]) /\
+  kf_step pinv A1 B1 A1 B1 z1 z1 Q1 R1 z1 y1 z1 P1 = ([4/5], [[4/5]]).
+Proof. exact ukf_witness1_values. Qed.
+(* old UKF, witness 2 (n = 2, non-diagonal P: rows of the lower Cholesky factor): A = I, B = 0,
+   Q = [[1,1/2],[1/2,1]], P = [[1,1/2],[1/2,1/2]], k = 2: old predicted covariance
+   [[9/4,3/4],[3/4,5/4]], Kalman P + Q = [[2,1],[1,3/2]] *)
+Theorem C13_ukf_old_sigma_points_witness :
+  forall msqrt, cholesky_ok 2 msqrt ->
+  ukf_predict_old msqrt (lin_system I2 B2 I2 B2 z2 z2) Q2 z2 [0] P2 2 = Some ([0; 0], [[9/4; 3/4]; [3/4; 5/4]]) /\
+  kf_predict I2 B2 z2 Q2 z2 [0] P2 = ([0; 0], [[2; 1]; [1; 3/2]]).
+Proof. exact ukf_witness2_values. Qed.
+Theorem C13_ukf_old_predict_linear_is_kf_predict_refuted : ~ ukf_old_predict_linear_is_kf_predict.
+Proof. exact ukf_old_predict_linear_is_kf_predict_refuted. Qed.
 
 (* ------------------------------------------------------------------ the contracts are satisfiable *)
 Example C13_pinv_contract_satisfiable : pinv_ok 1 (fun M => [[1 / mget M 0 0]]).
@@ -180,23 +191,25 @@ Example C13_cholesky_contract_satisfiable :
   cholesky_ok 1 (fun M => [[sqrt (mget M 0 0)]]) /\ cholesky_ok 2 chol2.
 Proof. split; [exact cholesky_ok_1_satisfiable | exact cholesky_ok_2_satisfiable]. Qed.
 
-Print Assumptions C13_ekf_linear_is_kf_refuted.
-Print Assumptions C13_ekf_linear_witness.
-Print Assumptions C13_ekf_documented_recursion_linear_is_kf.
-Print Assumptions C13_ekf_nonlinear_is_documented_recursion_refuted.
-Print Assumptions C13_ekf_covariance_is_documented_recursion.
+Print Assumptions C13_ekf_linear_is_kf.
+Print Assumptions C13_ekf_nonlinear_is_documented_recursion.
 Print Assumptions C13_ekf_cov_symmetric_psd.
-Print Assumptions C13_ukf_linear_is_kf_refuted.
-Print Assumptions C13_ukf_linear_witness.
-Print Assumptions C13_ukf_sigma_points_witness.
-Print Assumptions C13_ukf_predict_linear_is_kf_predict_refuted.
-Print Assumptions C13_ukf_repaired_linear_is_kf.
-Print Assumptions C13_ukf_cov_symmetric_psd.
+Print Assumptions C13_ukf_linear_is_kf.
+Print Assumptions C13_ukf_linear_is_kf_any_factor.
+Print Assumptions C13_ukf_predict_linear_is_kf_predict.
+Print Assumptions C13_ukf_cov_symmetric_pd.
 Print Assumptions C13_pf_cov_symmetric_psd.
 Print Assumptions C13_pf_weights_normalised.
 Print Assumptions C13_pf_lognorm_irrelevant.
 Print Assumptions C13_run_is_fold.
 Print Assumptions C13_ekf_run_cov_valid.
 Print Assumptions C13_ukf_run_cov_valid.
+Print Assumptions C13_ekf_old_linear_is_kf_refuted.
+Print Assumptions C13_ekf_old_linear_witness.
+Print Assumptions C13_ekf_old_is_documented_recursion_refuted.
+Print Assumptions C13_ukf_old_linear_is_kf_refuted.
+Print Assumptions C13_ukf_old_linear_witness.
+Print Assumptions C13_ukf_old_sigma_points_witness.
+Print Assumptions C13_ukf_old_predict_linear_is_kf_predict_refuted.
 Print Assumptions C13_pinv_contract_satisfiable.
 Print Assumptions C13_cholesky_contract_satisfiable.
